@@ -190,7 +190,7 @@ theorem sortByKey_of_increasing (xs : List (Nat × Bytes)) (h : KeysIncreasing x
     | cons y ys =>
       simp only [KeysIncreasing] at h
       rw [sortByKey, ih h.2]
-      simp [insertByKey, h.1]
+      simp [insertByKey, Nat.le_of_lt h.1]
 
 /-! ### one field -/
 
